@@ -81,11 +81,34 @@ def tree_hash():
     return _tree_hash
 
 
-def common_hash():
+_INC_RE = re.compile(r'^\s*#\s*include\s*"([^"]+)"', re.M)
+
+
+def local_includes(path, seen):
+    """transitive closure of the quoted #includes of a harness source (files under /verif/harness)"""
+    try:
+        text = open(path, "r", errors="replace").read()
+    except OSError:
+        return
+    for inc in _INC_RE.findall(text):
+        for base in (os.path.dirname(path), os.path.join(HERE, "harness"), os.path.join(HERE, "harness", "common")):
+            cand = os.path.normpath(os.path.join(base, inc))
+            if os.path.isfile(cand):
+                if cand not in seen:
+                    seen.add(cand)
+                    local_includes(cand, seen)
+                break
+
+
+def common_hash(srcs):
+    """hash of the harness-local headers these sources include (so that editing one shared header
+    only rebuilds the binaries that use it)"""
+    seen = set()
+    for s_ in srcs:
+        local_includes(os.path.join(HERE, s_), seen)
     h = hashlib.sha256()
-    root = os.path.join(HERE, "harness", "common")
-    for f in sorted(os.listdir(root)):
-        with open(os.path.join(root, f), "rb") as fh:
+    for f in sorted(seen):
+        with open(f, "rb") as fh:
             h.update(f.encode() + b"\0" + fh.read())
     return h.hexdigest()
 
@@ -112,7 +135,7 @@ def build_tu(tu):
     for extra_dep in tu.get("deps", []):
         src_bytes += open(os.path.join(HERE, extra_dep), "rb").read()
     flagsig = " ".join(tu_cmd(tu, "OUT", "DEP"))
-    key = sha(tree_hash(), common_hash(), src_bytes, flagsig)[:20]
+    key = sha(tree_hash(), common_hash(srcs), src_bytes, flagsig)[:20]
     out = os.path.join(CACHE, "%s.%s" % (tu["name"], key))
     if os.path.exists(out):
         return out, 0.0, True
@@ -411,6 +434,8 @@ def match_known(known, prop, key):
 
 
 def write_evidence(prop, cfg, tier, seed, coverage, wall, nviol, assumptions):
+    if os.environ.get("VERIF_NO_EVIDENCE"):
+        return      # validation runs against scratch copies must not overwrite the evidence of /repo
     os.makedirs(os.path.join(HERE, "evidence"), exist_ok=True)
     ev = {
         "property_id": prop,
